@@ -78,6 +78,7 @@ func runC03(p *core.Program, r *core.Report) {
 	// round 8: a memoised literal is written without asking the namer, so its package is never registered
 	chainRules(p, r, "R19", "C11", []string{"C11.R7"}, "the printers keep no memo: every rendering of a type goes through the namer")
 	c03R20(p, r)
+	c03R21(p, r)
 }
 
 // commitWitness: every definition of the boolean local v is the constant false, or the constant true at a point dominated
